@@ -296,10 +296,19 @@ def pairedFun (m : Mode) (p : PFun) (r : Rec) (mate : Option Rec) : Option Bool 
       else some good
     | none => some good
 
-def pairedEval (m : Mode) (p : Pred) (r : Rec) (mate : Option Rec) : Option Bool :=
+/-- `PairedPredicat(mode)` of a possibly nil predicate: `none` = nil (repaired: for `andnot` and `xor`
+the nil predicate is replaced by the one that accepts everything; the unrepaired code returned nil
+for every mode, so that these two modes kept every pair when no criterion was effective) -/
+def pairedPred (m : Mode) (p : Pred) : Option (Rec → Option Rec → Option Bool) :=
   match p with
+  | none => if m = .andnot ∨ m = .xor then some (pairedFun m fun _ => some true) else none
+  | some f => some (pairedFun m f)
+
+/-- verdict used by `CLIFilterSequence` on paired input: a nil predicate keeps the record -/
+def pairedEval (m : Mode) (p : Pred) (r : Rec) (mate : Option Rec) : Option Bool :=
+  match pairedPred m p with
   | none => some true
-  | some f => pairedFun m f r mate
+  | some f => f r mate
 
 /-! ## obidistribute: `DualAnnotationClassifier(key1, key2, na)` — the class of a record -/
 
